@@ -30,6 +30,7 @@ def queries(tier):
             qs.append(q)
     qs += handle_queries(tier)
     qs += ep_handle_queries(tier)
+    qs += ep_create_queries(tier)
     qs.append(Query("refcnt-any-count", "c10/refcnt.c", env=["env_alloc.c", "env_misc.c", "env_sync.c", "env_libc.c"], defs={}, unwind=8, timeout=120, group="c10/refcnt.c",
                     params={"kernel": "nni_refcnt_init/hold/rele", "initial_count": "1..1000 symbolic", "operations": "6 symbolic hold/release"}))
     # an operation pending on a dialer (nng_dial / nng_dialer_start_aio) must be completed when the dial ends with a close, cancel or stop result
@@ -39,6 +40,21 @@ def queries(tier):
             q.group = "~" + q.group
             if q.name not in set(x.name for x in qs):
                 qs.append(q)
+    return qs
+
+
+def ep_create_queries(tier):
+    """nng_dialer_create / nng_listener_create (real nni_dialer_create_url / nni_listener_create_url) with each creation step failing in turn"""
+    HENV = ["env_alloc.c", "env_misc.c", "env_sync.c", "env_aio.c", "env_idmap.c", "env_libc.c"]
+    STEPS = {0: "nothing fails", 1: "endpoint object not allocated", 2: "URL copy fails", 3: "transport init fails", 4: "socket refuses (closing)", 5: "id not allocated"}
+    qs = []
+    for lst in (0, 1):
+        for st, sn in STEPS.items():
+            d = {"FAILSTEP": st}
+            if lst:
+                d["LISTENER"] = 1
+            qs.append(Query("epcreate-%s-step%d" % ("listener" if lst else "dialer", st), "c10/ep_create.c", tus=["core/list.c", "core/options.c"], env=HENV, defs=d, unwind=12, timeout=120,
+                            group="c10/ep_create.c", params={"entry_point": "nni_%s_create_url" % ("listener" if lst else "dialer"), "failing_step": sn, "looked_up_id": "any 32-bit value"}))
     return qs
 
 
